@@ -247,7 +247,7 @@ func VH_C09() {
 
 	extra := 0
 	if !varyQuery {
-		extra = 1 + vsym.Choice("extra", 8)
+		extra = 1 + vsym.Choice("extra", 9)
 	}
 	switch extra {
 	case 0:
@@ -260,12 +260,27 @@ func VH_C09() {
 	case 4:
 		hdr.Set("X-Amz-Copy-Source", []string{"/bkt/k", "bkt", "/", "/bkt/k?versionId=x", "/nob/k", "%zz/k"}[vsym.Choice("cst", 6)])
 	case 5:
-		hdr.Set("Content-Length", []string{"1", "-1", "x", "99999999999999999999"}[vsym.Choice("clt", 4)])
+		// (a client can announce any length and then send less)
+		hdr.Set("Content-Length", []string{"1", "-1", "x", "99999999999999999999", "9223372036854775807"}[vsym.Choice("clt", 5)])
 		body = []byte("x")
 	case 6:
 		hdr.Set("Content-MD5", asciiStr("md5", 2))
 		hdr.Set("Content-Length", "1")
 		body = []byte("x")
+	case 9: // SigV4 streaming upload: framing intact or cut short, declared decoded length free
+		stream := frameChunks([][]byte{[]byte("ab")})
+		switch vsym.Choice("cutstream", 4) {
+		case 1:
+			stream = stream[:5] // inside the chunk header
+		case 2:
+			stream = stream[:85] // inside the chunk data
+		case 3:
+			stream = stream[:len(stream)-3] // inside the final chunk's header
+		}
+		body = stream
+		hdr.Set("Content-Length", itoa(len(stream)))
+		hdr.Set("X-Amz-Content-Sha256", "STREAMING-AWS4-HMAC-SHA256-PAYLOAD")
+		hdr.Set("X-Amz-Decoded-Content-Length", []string{"2", "0", "-1", "3", "x", "9223372036854775807"}[vsym.Choice("dcl", 6)])
 	case 7:
 		hdr.Set("If-None-Match", asciiStr("inm", 2))
 		hdr.Set("x-amz-date", "20060102T150405Z")
